@@ -32,6 +32,8 @@ pub trait VecOps {
     fn peel(self: Box<Self>) -> Box<dyn VecOps>;
     fn owned_iter(self: Box<Self>) -> Result<Result<Box<dyn IterOps>, Box<dyn VecOps>>, ()>;
     fn depth(&self) -> usize;
+    /// sum of the `begin()`s of the `VectoredSlice` layers
+    fn begin_sum(&self) -> usize;
 }
 
 pub trait IterOps {
@@ -191,6 +193,10 @@ impl<V: Nest2> VecOps for L<V, 0> {
     fn depth(&self) -> usize {
         0
     }
+
+    fn begin_sum(&self) -> usize {
+        0
+    }
 }
 
 /// containers for which a second `VectoredSlice` layer is instantiated (keeps the build small)
@@ -241,6 +247,10 @@ impl<W: Nest2> VecOps for L<VectoredSlice<W>, 1> {
     fn depth(&self) -> usize {
         1
     }
+
+    fn begin_sum(&self) -> usize {
+        self.0.begin()
+    }
 }
 
 impl<W: Nest2> VecOps for L<VectoredSlice<VectoredSlice<W>>, 2> {
@@ -258,6 +268,10 @@ impl<W: Nest2> VecOps for L<VectoredSlice<VectoredSlice<W>>, 2> {
 
     fn depth(&self) -> usize {
         2
+    }
+
+    fn begin_sum(&self) -> usize {
+        self.0.begin() + self.0.as_inner().begin()
     }
 }
 
@@ -340,7 +354,8 @@ fn build(kind: &str, ms: Vec<BV>) -> Option<Box<dyn VecOps>> {
 enum VSt {
     Dead,
     Vec(Box<dyn VecOps>),
-    Iter(Box<dyn IterOps>, usize),
+    /// iterator, current member index, begin_sum of the sliced buffer it iterates, capacities yielded before the current position
+    Iter(Box<dyn IterOps>, usize, usize, usize),
 }
 
 pub struct VMachine {
@@ -413,6 +428,11 @@ impl VMachine {
             .collect()
     }
 
+    /// total capacity of the base container (None if a member's as_uninit panics)
+    fn base_cap(&self) -> Option<usize> {
+        self.base_shape().iter().map(|s| s.map(|x| x.1)).sum()
+    }
+
     /// attach member indices (the last `count` members are the ones yielded) and make offsets root-relative
     fn rel(&self, items: Items) -> Result<Vec<(usize, usize, usize)>, ()> {
         let items = items?;
@@ -459,7 +479,7 @@ impl VMachine {
     }
 
     fn iobs(&mut self) -> (Result<(usize, usize, usize), ()>, Result<(usize, usize, usize), ()>) {
-        let VSt::Iter(it, idx) = &mut self.st else { unreachable!() };
+        let VSt::Iter(it, idx, ..) = &mut self.st else { unreachable!() };
         let idx = *idx;
         let i = it.init();
         let u = it.uninit();
@@ -560,6 +580,12 @@ impl VMachine {
                     ex.tag("vfill-contract");
                     return "contract".into();
                 }
+                // a VectoredSlice whose begin lies beyond the end turns an in-contract set_len into one beyond
+                // the capacity (UB for Vec / SmallVec members of a `(T,)` tuple): never issued
+                if shape.iter().map(|s| s.map(|x| x.1)).sum::<Option<usize>>().map(|bc| v.begin_sum() + k > bc).unwrap_or(true) {
+                    ex.tag("oob-begin");
+                    return "oob".into();
+                }
                 if v.write(&data).is_err() || v.advance_vec_to(k).is_err() {
                     self.st = VSt::Dead;
                     ex.tag("vfill-panic");
@@ -617,6 +643,7 @@ impl VMachine {
             }
             ["vsetlen", n] | ["vadvto", n] => {
                 let Ok(n) = n.parse::<usize>() else { return "bad-op".into() };
+                let base_cap = self.base_cap();
                 let VSt::Vec(v) = &mut self.st else { unreachable!() };
                 let Ok(tc) = v.total_cap() else {
                     self.st = VSt::Dead;
@@ -624,6 +651,10 @@ impl VMachine {
                 };
                 if n > tc {
                     return "contract".into();
+                }
+                if base_cap.map(|bc| v.begin_sum() + n > bc).unwrap_or(true) {
+                    ex.tag("oob-begin");
+                    return "oob".into();
                 }
                 let r = if w[0] == "vsetlen" { v.set_len(n) } else { v.advance_vec_to(n) };
                 if r.is_err() {
@@ -659,6 +690,7 @@ impl VMachine {
                 let VSt::Vec(v) = std::mem::replace(&mut self.st, VSt::Dead) else { unreachable!() };
                 let n = self.members.len();
                 let count = v.items_s().map(|i| i.len()).unwrap_or(0);
+                let bsum = v.begin_sum();
                 match v.owned_iter() {
                     Err(()) => "panic".into(),
                     Ok(Err(v)) => {
@@ -667,7 +699,7 @@ impl VMachine {
                     }
                     Ok(Ok(it)) => {
                         ex.tag("viter");
-                        self.st = VSt::Iter(it, n - count);
+                        self.st = VSt::Iter(it, n - count, bsum, 0);
                         self.iline(ex, line)
                     }
                 }
@@ -690,7 +722,8 @@ impl VMachine {
                 let before = self.roots();
                 let shape = self.base_shape();
                 let ever_unpacked = self.ever_unpacked;
-                let VSt::Iter(it, idx) = &mut self.st else { unreachable!() };
+                let base_cap = self.base_cap();
+                let VSt::Iter(it, idx, bsum, earlier) = &mut self.st else { unreachable!() };
                 let idx = *idx;
                 let Ok((j, off, c)) = bu else {
                     self.st = VSt::Dead;
@@ -698,6 +731,9 @@ impl VMachine {
                 };
                 if k > c {
                     return "contract".into();
+                }
+                if base_cap.map(|bc| *bsum + *earlier + k > bc).unwrap_or(true) {
+                    return "oob".into();
                 }
                 if bi.is_err() {
                     self.st = VSt::Dead;
@@ -748,13 +784,17 @@ impl VMachine {
             }
             ["isetlen", n] | ["iadvto", n] => {
                 let Ok(n) = n.parse::<usize>() else { return "bad-op".into() };
-                let VSt::Iter(it, _) = &mut self.st else { unreachable!() };
+                let base_cap = self.base_cap();
+                let VSt::Iter(it, _, bsum, earlier) = &mut self.st else { unreachable!() };
                 let Ok((_, c)) = it.uninit() else {
                     self.st = VSt::Dead;
                     return "panic".into();
                 };
                 if n > c {
                     return "contract".into();
+                }
+                if base_cap.map(|bc| *bsum + *earlier + n > bc).unwrap_or(true) {
+                    return "oob".into();
                 }
                 let r = if w[0] == "isetlen" { it.set_len(n) } else { it.advance_to(n) };
                 if r.is_err() {
@@ -765,11 +805,12 @@ impl VMachine {
                 self.iline(ex, line)
             }
             ["inext"] => {
-                let VSt::Iter(it, idx) = std::mem::replace(&mut self.st, VSt::Dead) else { unreachable!() };
+                let VSt::Iter(mut it, idx, bsum, earlier) = std::mem::replace(&mut self.st, VSt::Dead) else { unreachable!() };
+                let cur_cap = it.uninit().map(|x| x.1).unwrap_or(0);
                 match it.next() {
                     Ok(it) => {
                         ex.tag("inext");
-                        self.st = VSt::Iter(it, idx + 1);
+                        self.st = VSt::Iter(it, idx + 1, bsum, earlier + cur_cap);
                         self.iline(ex, line)
                     }
                     Err(v) => {
@@ -780,7 +821,7 @@ impl VMachine {
                 }
             }
             ["iinner"] => {
-                let VSt::Iter(it, _) = std::mem::replace(&mut self.st, VSt::Dead) else { unreachable!() };
+                let VSt::Iter(it, ..) = std::mem::replace(&mut self.st, VSt::Dead) else { unreachable!() };
                 self.st = VSt::Vec(it.inner());
                 self.vline(ex, line)
             }
@@ -806,7 +847,7 @@ impl VMachine {
     pub fn totals(&mut self) -> (usize, usize) {
         match &mut self.st {
             VSt::Vec(v) => (v.total_len().unwrap_or(0), v.total_cap().unwrap_or(0)),
-            VSt::Iter(it, _) => (it.init().map(|x| x.1).unwrap_or(0), it.uninit().map(|x| x.1).unwrap_or(0)),
+            VSt::Iter(it, ..) => (it.init().map(|x| x.1).unwrap_or(0), it.uninit().map(|x| x.1).unwrap_or(0)),
             VSt::Dead => (0, 0),
         }
     }
